@@ -10,13 +10,16 @@ machine of its callers; which caller checks where comes from the regenerated fac
 What is *not* here: that a refused multi-message COPY/MOVE/connector batch leaves the database
 untouched (all-or-nothing) is the transaction rollback of C08's database model plus the lead's
 wire oracle; this file covers the arithmetic, the placement of the checks (which limits value, which
-quantity, one write transaction per COPY / MOVE: `limit_quantities_today`) and the invariant.  In the
+quantity, one write transaction per COPY / MOVE: `limit_quantities_today`; one write transaction, not
+opened in a loop, per connector update of whatever length: `connector_update_one_transaction_today`)
+and the invariant.  In the
 model a refusal is the identity on the world (`replace_refused_unchanged`); the wire oracle's judge
 (`Driver/DJudgeLimits.lean`) compares every mailbox's content, UIDs and UIDNEXT before and after
 every refused command against that.
 -/
 import GluonModel.Lemmas.Limits
 import GluonModel.Generated.Facts.Limits
+import GluonModel.Generated.Facts.UpdateTx
 
 namespace Gluon.C17
 
@@ -167,6 +170,74 @@ theorem uid_check_counts_duplicates_witness :
       ¬ ((w.uidNext : Int) + 3 ≤ l.maxUID) ∧ step l w (.replaceTx 3 3) = w := by
   decide
 
+/-! ## multi-message operations of any length: all or nothing -/
+
+/-- **A batch is all-or-nothing, whatever its length** — an in-transaction add of `n` messages (a
+    connector batch, the insertion of a COPY / MOVE) either leaves the world exactly as it was or adds
+    exactly `n` messages and consumes exactly `n` UIDs; there is no third outcome, for no `n`. -/
+theorem batch_all_or_nothing (l : IMAP) (w : World) (n : Nat) :
+    step l w (.addTx n) = w ∨
+    step l w (.addTx n) = { w with count := w.count + n, uidNext := w.uidNext + n } := by
+  simp only [step]
+  split
+  · right; rfl
+  · left; rfl
+
+/-- **…and which of the two is decided by whether the WHOLE batch fits** — for every constructible
+    limit configuration and every world within the limits: the batch is applied iff count + n and
+    UIDNEXT + n are within the maxima (so a batch whose first 1000 messages would fit is refused as a
+    whole when the 1001st does not). -/
+theorem batch_applied_iff_fits (l : IMAP) (hl : U32Limits l) (w : World) (hw : Within l w) (n : Nat)
+    (hn : (n : Int) < 2 ^ 63) :
+    msgChecks l w n = true ↔
+      ((w.count : Int) + n ≤ l.maxMessageCountPerMailbox ∧ (w.uidNext : Int) + n ≤ l.maxUID) := by
+  constructor
+  · exact msgChecks_sound l hl w hw n hn
+  · intro ⟨h1, h2⟩
+    unfold U32Limits at hl
+    have := check_complete l (w.count : Int) n w.uidNext (by omega) (by omega) h1 h2 (by omega) (by omega)
+    simp [msgChecks, this.1, this.2]
+
+/-- **One transaction per slice would NOT be all-or-nothing** — limit 2, empty mailbox, a batch of 3
+    cut into slices of 2: the whole batch is refused (the machine = the source: nothing changes), the
+    sliced variant keeps the first slice: 2 messages, UIDNEXT 3, although the update is answered with
+    the limit error.  (With `db.ChunkLimit` = 1000 this is: limit 1000, batch of 1001 → 1000 left.) -/
+theorem sliced_batch_partial_effect_witness :
+    let l := newIMAPLimits 10 2 100 100
+    let w : World := { mailboxes := 1, count := 0, uidNext := 1, passed := [] }
+    sliceSizes 2 3 = [2, 1] ∧ step l w (.addTx 3) = w ∧
+      addSlices l w (sliceSizes 2 3) = { w with count := 2, uidNext := 3 } ∧
+      addSlices l w (sliceSizes 2 3) ≠ w := by
+  decide
+
+/-- **…and it shows only when the batch is refused after a full slice went in** — if the whole batch
+    fits, cutting it into slices (of any sizes) gives the same world as the single transaction: batches
+    that fit, and batches of at most one slice, cannot tell the two apart. -/
+theorem sliced_same_when_whole_fits (l : IMAP) (hl : U32Limits l) (ks : List Nat) (w : World)
+    (h1 : (w.count : Int) + (ks.sum : Nat) ≤ l.maxMessageCountPerMailbox)
+    (h2 : (w.uidNext : Int) + (ks.sum : Nat) ≤ l.maxUID) :
+    addSlices l w ks = { w with count := w.count + ks.sum, uidNext := w.uidNext + ks.sum } := by
+  induction ks generalizing w with
+  | nil => cases w; simp [addSlices]
+  | cons k ks ih =>
+    simp only [List.sum_cons, Int.natCast_add] at h1 h2
+    have hk : msgChecks l w k = true := by
+      unfold U32Limits at hl
+      have := check_complete l (w.count : Int) k w.uidNext (by omega) (by omega) (by omega) (by omega) (by omega) (by omega)
+      simp [msgChecks, this.1, this.2]
+    simp only [addSlices, hk, if_true, step]
+    rw [ih _ (by simp only [Int.natCast_add]; omega) (by simp only [Int.natCast_add]; omega)]
+    simp only [List.sum_cons, Nat.add_assoc]
+
+-- non-vacuity of `batch_applied_iff_fits` / `sliced_same_when_whole_fits`: a batch of 5 that fits exactly,
+-- whole and in slices of 2
+example :
+    let l := newIMAPLimits 10 5 100 100
+    let w : World := { mailboxes := 1, count := 0, uidNext := 1, passed := [] }
+    U32Limits l ∧ Within l w ∧ msgChecks l w 5 = true ∧ msgChecks l w 6 = false ∧
+      addSlices l w (sliceSizes 2 5) = step l w (.addTx 5) ∧ (step l w (.addTx 5)).count = 5 := by
+  decide
+
 /-! ## what the source does today (regenerated facts) -/
 
 /-- **Placement of the checks in the current source** (by `decide` over the regenerated table):
@@ -220,6 +291,25 @@ theorem limit_quantities_today :
     (∀ a ∈ Facts.limitArgSites, a.kind = "configured" ∨ a.kind = "param") ∧
     ((Facts.mailboxTxShapes.filter (fun s => s.func == "Mailbox.Copy" || s.func == "Mailbox.Move")).map (fun s => (s.func, s.writes))
         = [("Mailbox.Copy", 1), ("Mailbox.Move", 1)]) := by
+  decide
+
+/-- **A connector update is one write transaction, whatever its length** (by `decide` over the
+    regenerated table `Facts.updateTxShapes`, read off internal/backend/connector_updates.go):
+    1. `applyMessagesCreated` opens exactly one write transaction (`userDBWrite`) in its own body, none
+       through a method it calls, and not from inside a `for` / `range` statement — the limit checks of
+       the whole batch and all its insertions commit or roll back together (`batch_all_or_nothing` is
+       the model's statement; a handler that cuts the update into slices with a transaction each is
+       `addSlices`, `sliced_batch_partial_effect_witness`);
+    2. no handler of any update kind opens a write transaction from inside a loop, directly or through
+       another `user` method;
+    3. every handler opens at most one write transaction on any path (`applyMessageUpdated` has two
+       call sites on exclusive paths: its own, and `applyMessagesCreated` for an unknown message). -/
+theorem connector_update_one_transaction_today :
+    ((Facts.updateTxShapes.filter (fun s => s.func == "user.applyMessagesCreated")).map
+        (fun s => (s.writes, s.writesInLoop, s.txTotal, s.txInLoop)) = [(1, 0, 1, false)]) ∧
+    (∀ s ∈ Facts.updateTxShapes, s.txInLoop = false ∧ s.writesInLoop = 0) ∧
+    ((Facts.updateTxShapes.filter (fun s => s.func != "user.apply" && s.txTotal > 1)).map (fun s => (s.func, s.writes, s.txTotal))
+        = [("user.applyMessageUpdated", 1, 2)]) := by
   decide
 
 -- non-vacuity of `replace_accepted` / `replace_within` / `replace_complete`: the same three messages copied a second
